@@ -90,7 +90,12 @@ func newC18World(dir string, p c18Params) *c18World {
 }
 
 func c18PreRow(i int) model.Row {
-	return model.Row{"id": "pre" + strconv.Itoa(i), "c": "shared", "d": "pre"}
+	r := model.Row{"id": "pre" + strconv.Itoa(i), "c": "shared", "d": "pre"}
+	if i < 100 {
+		r["cold"] = "x" // a value of the first rows only, which the concurrent rows bring back (a writer that tidies up
+		// values it has not seen for a while must not do so while they are being added to again)
+	}
+	return r
 }
 
 // the unique tag is longer than any fixed-size key buffer somebody might introduce and differs only at its end
@@ -101,9 +106,21 @@ var c18LongTag = strings.Repeat("tag-", 20)
 // cold in every explored schedule, not only in the very first execution of the process.
 var c18Epoch int
 
+// refill empties m and fills it from src: every goroutine passes ONE map object to all its AddRow calls, refilled in
+// between (a writer that keeps the caller's map instead of its content sees later rows in earlier ones).
+func refill(m, src model.Row) model.Row {
+	for k := range m {
+		delete(m, k)
+	}
+	for k, v := range src {
+		m[k] = v
+	}
+	return m
+}
+
 func c18Row(t, j int) model.Row {
 	e := strconv.Itoa(c18Epoch)
-	return model.Row{"id": fmt.Sprintf("%st%d_%d", c18LongTag, t, j), "c": "shared", "d": "thread" + strconv.Itoa(t), "e" + e: "v" + e}
+	return model.Row{"id": fmt.Sprintf("%st%d_%d", c18LongTag, t, j), "c": "shared", "d": "thread" + strconv.Itoa(t), "e" + e: "v" + e, "cold": "x"}
 }
 
 type c18Obs struct {
@@ -123,8 +140,9 @@ func c18Scenario(ctx *rt.Ctx, p c18Params, lastOutcome *string) vsched.Scenario 
 		for t := 0; t < p.K; t++ {
 			t := t
 			bodies = append(bodies, func() {
+				row := model.Row{}
 				for j := 0; j < p.R; j++ {
-					id, err := w.w.AddRow(c18Row(t, j))
+					id, err := w.w.AddRow(refill(row, c18Row(t, j)))
 					if err != nil {
 						obs.errs[t] = err
 						return
@@ -154,8 +172,9 @@ func c18Separate(ctx *rt.Ctx, p c18Params, lastOutcome *string) vsched.Scenario 
 			ws[t] = newC18World(ctx.Scratch, c18Params{Writer: p.Writer})
 			obs[t] = &c18Obs{ids: make([][]uint32, 1), errs: make([]error, 1)}
 			bodies = append(bodies, func() {
+				row := model.Row{}
 				for j := 0; j < p.R; j++ {
-					id, err := ws[t].w.AddRow(c18Row(t, j))
+					id, err := ws[t].w.AddRow(refill(row, c18Row(t, j)))
 					if err != nil {
 						obs[t].errs[0] = err
 						return
@@ -316,7 +335,7 @@ func c18Run(ctx *rt.Ctx) []*rt.Violation {
 	type kr struct{ k, r, pre int }
 	cfgs := []kr{{2, 2, 0}, {3, 1, 0}, {2, 1, 999}, {2, 2, 998}}
 	if ctx.Thorough() {
-		cfgs = []kr{{2, 2, 0}, {3, 1, 0}, {3, 2, 0}, {4, 1, 0}, {2, 3, 0}, {2, 1, 999}, {2, 2, 998}, {3, 1, 998}, {3, 1, 999}, {2, 2, 999}}
+		cfgs = []kr{{2, 2, 0}, {3, 1, 0}, {3, 2, 0}, {4, 1, 0}, {2, 3, 0}, {2, 1, 999}, {2, 2, 998}, {3, 1, 998}, {3, 1, 999}, {2, 2, 999}, {2, 1, 65535}, {2, 1, 131071}}
 	}
 	var jobs []rt.Job
 	for _, w := range []ix.Writer{ix.MemFile, ix.Big} {
